@@ -59,7 +59,7 @@ def _Game():
 # ------------------------------------------------------------------------------------------------
 @st.composite
 def _prob_fields(draw, X, Y, allow_zero=True):
-    if draw(st.booleans()):
+    if draw(st.booleans()) or (not allow_zero and X * Y > 32):
         return {"pk": "uniform"}
     return {"pk": "dyadic", "counts": draw(gen.dyadic_probs(X * Y, m=6, allow_zero=allow_zero))}
 
@@ -102,14 +102,17 @@ def _pred_fields(draw, shape, kinds=("small", "rand01", "frac16", "float")):
         out["seed"] = draw(gen.SEED)
         if fam == "rand01":
             out["dens"] = draw(st.integers(1, 3))
+        if fam == "planted":
+            pos = st.sampled_from(["first", "last", "last", "lastbut", "lastbut", "random"])
+            out["f_pos"], out["g_pos"], out["leak"] = draw(pos), draw(pos), draw(st.sampled_from([0.0, 0.25, 0.5]))
     return out
 
 
 @st.composite
 def _classical_case(draw):
     shape = draw(_shape_mode())
-    spec = draw(_pred_fields(shape))
-    spec.update(draw(_prob_fields(shape[2], shape[3])))
+    spec = draw(_pred_fields(shape, kinds=("small", "rand01", "frac16", "float", "planted")))
+    spec.update(draw(_prob_fields(shape[2], shape[3], allow_zero=spec["fam"] != "planted")))
     return {"game": spec}
 
 
@@ -248,13 +251,15 @@ def _pool_case(draw):
     shape = [a, b, x, y]
     if draw(st.booleans()):
         shape = [b, a, y, x]
-    spec = draw(_pred_fields(shape, kinds=("rand01", "frac16", "float")))
-    spec.update(draw(_prob_fields(shape[2], shape[3])))
+    spec = draw(_pred_fields(shape, kinds=("rand01", "frac16", "float", "planted", "planted", "planted")))
+    spec.update(draw(_prob_fields(shape[2], shape[3], allow_zero=spec["fam"] != "planted")))
     return {"game": spec}
 
 
 def nt_pool(case):
-    return "pool," + (_asym_label(case["game"]["shape"]) or "A=B,X=Y")
+    g = case["game"]
+    planted = f",planted:{g['f_pos']}/{g['g_pos']}" if g["fam"] == "planted" else ""
+    return "pool," + (_asym_label(g["shape"]) or "A=B,X=Y") + planted
 
 
 def check_classical_pool(case):
@@ -685,7 +690,7 @@ def nt_history(case):
 
 SUBCHECKS = [
     SubCheck("classical_bruteforce", check_classical, _classical_case, nt_classical, quick=4000, thorough=60000),
-    SubCheck("classical_pool_branch", check_classical_pool, _pool_case, nt_pool, quick=40, thorough=300, shards=2, case_timeout=120),
+    SubCheck("classical_pool_branch", check_classical_pool, _pool_case, nt_pool, quick=64, thorough=600, shards=2, case_timeout=120),
     SubCheck("classical_pred_dtype", check_classical_dtype, _dtype_case, lambda c: "dtype:" + c["dtype"], quick=300, thorough=3000, shards=4),
     SubCheck("metamorphic_classical", check_meta_classical, lambda: st.builds(lambda g: {"game": g}, _family_game(fams=("xor", "modk", "unique", "bcs", "rand01", "frac16", "float"), max_entries=256)), nt_meta, quick=1200, thorough=20000),
     SubCheck("metamorphic_sdp", check_meta_sdp, _meta_sdp_case, nt_meta, quick=48, thorough=700, case_timeout=150),
